@@ -30,7 +30,7 @@ type Result struct {
 	havoc    bool
 }
 
-var reStrLit = regexp.MustCompile(`\(mkstr \(- (\d+)\) 0 `)
+var reStrLit = regexp.MustCompile(`\((?:mkstr|bytes) \(- (\d+)\) `)
 
 // buildQuery renders the SMT-LIB script for one obligation.
 var buildMu sync.Mutex
@@ -44,6 +44,7 @@ func (vc *VC) buildQuery(o *Obl) (string, error) {
 	asserts = append(asserts, vc.facts[:o.NFacts]...)
 	asserts = append(asserts, o.Extra...)
 	asserts = append(asserts, o.Guard)
+	asserts = append(asserts, vc.used.facts...)
 	var skDecls []string
 	goal := skolemize(o.Goal, &skDecls)
 	asserts = append(asserts, Not(goal))
@@ -118,6 +119,10 @@ func (vc *VC) buildQuery(o *Obl) (string, error) {
 		sb.WriteString("\n")
 	}
 	for _, d := range skDecls {
+		sb.WriteString(d)
+		sb.WriteString("\n")
+	}
+	for _, d := range vc.used.decls {
 		sb.WriteString(d)
 		sb.WriteString("\n")
 	}
